@@ -1,3 +1,4 @@
+import numpy as np
 from scipy import optimize as sopt
 
 from ..config import LocalOptimizationConfig
@@ -29,6 +30,12 @@ class LocalDeme(AbstractDeme):
         x0 = self._sprout_seed.genome
 
         def fun(x):
+            if np.isnan(x).any():
+                # Where the objective is infinite scipy's finite-difference gradient (inf - inf) and with it the
+                # next iterate turn NaN: such a point is not in the box and is never shown to the objective
+                # (scipy still counts the call in result.nfev, which is added below).
+                self._n_evals -= 1
+                return np.inf
             return self._sign * self._problem.evaluate(x)
 
         result = sopt.minimize(
